@@ -40,7 +40,7 @@ def decode(data):
         v = nxt(255)
         chunks.append([1, 7, 105, 106, 107, BUF - 1, BUF, 40][v % 8] if v < 128 else v - 127)
     out = [x12ref.make_isa(ele=ele, sub=sub, term=term, icvn=icvn, rep=rep)]
-    eols = ['', '\n', '\r\n', '\n\n'] if term != '\n' else ['']
+    eols = ['', '\n', '\r\n', '\n\n', '\n' * 6, '\r\n' * 3] if term != '\n' else ['']
     out.append(eols[nxt() % len(eols)])
     nseg = 0
     # the grammar of the Hypothesis generator of C01 (optional leading blanks, an identifier, elements of 1..3 components,
